@@ -188,6 +188,14 @@ func (r *renderer) body(items []*AItem, path []int, depth int) {
 			continue
 		}
 		e.Name = [2]int{r.sb.Len(), r.sb.Len() + len(it.Type)}
+		if r.cur != nil && r.cur.Kind == "type" && pathKey(r.cur.Path) == pathKey(p) {
+			// cursor inside the type of this (complete) block, behind the typed prefix
+			n := len(r.cur.Prefix)
+			if n > len(it.Type) {
+				n = len(it.Type)
+			}
+			r.at = r.sb.Len() + n
+		}
 		r.sb.WriteString(it.Type)
 		for li, lb := range it.Labels {
 			r.sb.WriteString(r.l.LabelGap)
